@@ -144,7 +144,7 @@ func c17Analyse(src []byte) (*c17Zones, *ast.File, error) {
 	}
 	z.Decl = make([][]string, len(decls))
 	z.Gap = make([][]string, len(decls)+1)
-	line := func(p token.Pos) int { return fset.Position(p).Line }
+	line := func(p token.Pos) int { return fset.PositionFor(p, false).Line }
 	docOf := func(d ast.Decl) *ast.CommentGroup {
 		switch x := d.(type) {
 		case *ast.FuncDecl:
@@ -388,7 +388,17 @@ func c17Runs(rt *rapid.T) *c17Case {
 	if big {
 		maxPad, maxRun = 60, 170
 	}
-	pad(rapid.IntRange(0, maxPad).Draw(rt, "padHead"), "head")
+	// generated source: a //line directive in front of everything, so that
+	// positions mean lines the file does not have (small or large numbers)
+	lineDir := rapid.IntRange(0, 3).Draw(rt, "lineDirective") == 0
+	if lineDir {
+		fmt.Fprintf(&b, "//line runs.y:%d\n\n", rapid.SampledFrom([]int{1, 2, 9000}).Draw(rt, "lineDirectiveN"))
+	}
+	padHead := rapid.IntRange(0, maxPad).Draw(rt, "padHead")
+	if lineDir && padHead == 0 {
+		padHead = 1
+	}
+	pad(padHead, "head")
 	run(rapid.IntRange(0, maxRun).Draw(rt, "runBefore"), "before")
 	tight := rapid.IntRange(0, 2).Draw(rt, "tightKeep") == 0
 	if tight {
